@@ -6,6 +6,18 @@ props = [json.loads(l) for l in open(os.path.join(V, "properties.jsonl"))]
 
 MACHINE_NOTE = 'The reference machine (spec/Machine.tla + Values.tla) is a transcription of the intended semantics checked for totality (NotStuck) by TLC; where no language document exists the pinned behaviour is the definition. Numbers outside the modelled domain are not compared.'
 CHECKS = {
+ "C03": dict(
+    level="model_checking",
+    text="Scanner.tla is an executable specification of scan_token (white space, comments, the two-character number look-ahead, keywords, every "
+         "operator, strings with escapes, hexadecimal / Unicode escapes validated as UTF-8, the interpolation brace stack and its depth limit, line "
+         "counting). TLC enumerates every source over six alphabets up to 3-5 characters as initial states, checks ScanTerminates, and the real "
+         "scanner must produce exactly the predicted kinds, texts and lines. The parser is bound by trace validation: every compilation of "
+         "~70 000 inputs (prefixes, token-range deletions / duplications / swaps / substitutions / insertions, Unicode noise over the repository's "
+         "scripts; all pairs and sampled longer sequences over the token vocabulary; nesting around the stated bounds) must return, fail only with "
+         "located compile errors, and its ErrorAt / Synchronise / ParseEnd events must be accepted by TraceParser.tla.",
+    note="The grammar is not modelled: for parser inputs the oracle is totality, located messages and the recovery discipline. Unbounded nesting "
+         "(10^5 open parentheses) is outside the property's stated bounds and is not generated.",
+    technique="TLA+ scanner spec + TLC exhaustive enumeration replayed on the real scanner; trace validation of parser events", design="4 C03"),
  "C10": dict(
     level="model_checking",
     text="One specification (Machine.tla) is the arbiter for every build configuration: a stratified sample of all scenario families (closures, "
